@@ -116,7 +116,7 @@ Section WithTable.
   Proof.
     intros [<-|[<-|[<-|[]]]]; cbn [body String.eqb Ascii.eqb Bool.eqb]; unfold res_world.
     - cbn. apply same_core_refl.
-    - cbn. destruct (str_isascii arg && str_isdigit arg).
+    - cbn. destruct (str_isascii arg && str_isdigit arg && _).
       + destruct (int_of_digits arg); cbn; repeat split.
       + cbn. repeat split.
     - cbn. apply same_core_refl.
